@@ -183,6 +183,45 @@ def gen_transpose(rng, i):
                 view=rng.random() < 0.3, kw=kw)
 
 
+def gen_transpose_mirror(rng, i):
+    """16-bit image with close anti-diagonal pairs of spots mirrored across the image diagonal whose
+    masses (~1.8e5) differ by one or two counts: both members are found as maxima (they sit between
+    the square dilation footprint and the separation ellipse), the mass comparison of `where_close`
+    has to decide, and its fall-back (position sum, then raster order) is what transposition
+    changes.  No exact ties (those are borderline by the property's own reading)."""
+    n = 56
+    a = np.zeros((n, n), dtype=np.int64)
+
+    def cross(y, x, peak, arm):
+        a[y, x] = peak
+        for dy, dx in ((1, 0), (-1, 0), (0, 1), (0, -1)):
+            a[y + dy, x + dx] = arm
+    used = []
+    for _ in range(rng.randint(2, 4)):
+        for _try in range(50):
+            lo = rng.randint(6, n - 12)
+            if all(abs(lo - u) >= 10 for u in used):
+                break
+        else:
+            continue
+        used.append(lo)
+        hi = lo + 4
+        arm = rng.choice([30000, 31000, 20000])
+        peak = rng.choice([60000, 50000, 64000])
+        d = rng.choice([1, 2, -1, -2])
+        cross(lo, hi, peak, arm)
+        cross(hi, lo, peak + d, arm)
+    for _ in range(rng.randint(0, 3)):                # isolated spots off the diagonal band
+        y, x = rng.randint(4, n - 5), rng.randint(4, n - 5)
+        if abs(y - x) > 12 and a[max(0, y - 8):y + 9, max(0, x - 8):x + 9].sum() == 0:
+            cross(y, x, rng.choice([40000, 65000]), rng.choice([10000, 25000]))
+    kw = dict(diameter=[5, 5], percentile=64, max_iterations=rng.choice([10, 3]),
+              engine=rng.choice(["python", "numba"]), characterize=True, minmass_q=None,
+              preprocess=False)
+    return dict(stream="transpose", kind="mirror-pairs", dtype="uint16", shape=[n, n],
+                pixels=[int(v) for v in a.ravel()], perm=[1, 0], view=rng.random() < 0.3, kw=kw)
+
+
 def gen_batch(rng, i):
     nfr = rng.randint(3, 6)
     side = [rng.randint(28, 44), rng.randint(28, 44)]
@@ -288,7 +327,10 @@ def gen_cases(ctx):
         if i < ns:
             yield gen_shift(ctx.rng("shift", i), i)
         if i < nt:
-            yield gen_transpose(ctx.rng("transpose", i), i)
+            if i % 8 == 5:
+                yield gen_transpose_mirror(ctx.rng("transpose-mirror", i), i)
+            else:
+                yield gen_transpose(ctx.rng("transpose", i), i)
         if i < ng:
             yield gen_stage(ctx.rng("stage", i), i)
 
